@@ -27,6 +27,10 @@ def state_tracker(rep, tier):
             rep.violation("SolverState.tla violates %s" % (r.invariant_violated or "an action property"), payload=r.out[-5000:])
             return
         raise CheckError("TLC failed on SolverState.tla:\n" + r.out[-3000:])
+    # unbounded strengthening (arbitrary integer values and points, arbitrarily long histories, any patience): Apalache discharges an
+    # inductive invariant of a history-free formulation of the same actions (SolverStateInd.tla)
+    common.inductive(rep, "SolverStateInd", specdir, what="the stored value is the smallest finite value handed in; value_test(k) = 0 exactly "
+                                                           "when the last k calls brought no strict improvement")
     cfg = "SolverStateReplay.cfg" if tier == "quick" else "SolverStateReplay_big.cfg"
     dotfile = os.path.join(work, "state.dot")
     r = common.tlc("SolverStateReplay", cfg, specdir, workers=8, timeout=1800, extra=["-dump", "dot,actionlabels", dotfile])
